@@ -241,15 +241,20 @@ package protocol
 // =====================================================================================================
 // the incremental text parser's cursor state
 //@ spec func parserInv(p) = 0 <= p.bufIndex && p.bufIndex <= p.bufLen && p.bufLen <= len(p.rbuf) && 0 <= p.cargIndex && len(p.carg) == 128 && implies(p.stage != 4, p.cargIndex <= 128) && implies(p.stage == 4 && p.cargIndex > 0, len(p.args) >= 1)
+// C14 (framing independence of the text parser): inside an argument body the carried count is the number of the
+// argument's bytes consumed so far, which is also the length of the partial argument string
+//@ spec func parserCarry(p) = implies(p.stage == 4 && p.cargIndex > 0, len(p.args) >= 1 && p.cargIndex <= p.cargLen && len(p.args[len(p.args)-1]) == p.cargIndex)
 
 //@ func (*TextParser).ParseRequest
 //@   requires self != nil && parserInv(self)
+//@   requires C14.parser.carry: parserCarry(self)
 //@   safe
-//@   loop#1 invariant parserInv(self)
+//@   loop#1 invariant parserInv(self) && parserCarry(self)
 //@   loop#2 invariant parserInv(self) && self.stage == 1
 //@   loop#3 invariant parserInv(self) && self.stage == 3
-//@   loop#4 invariant parserInv(self) && self.stage == 4 && self.cargIndex >= 0
+//@   loop#4 invariant parserInv(self) && self.stage == 4 && self.cargIndex >= 0 && parserCarry(self)
 //@   ensures C13.parser.request: parserInv(self)
+//@   ensures C14.parser.carry: parserCarry(self)
 //@ func (*Command).Decode
 //@   requires self != nil && len(buf) >= 64
 //@   inline
